@@ -316,6 +316,12 @@ struct PrologEpilogInfo {
 ASMJIT_FAVOR_SIZE Error EmitHelper::emit_prolog(const FuncFrame& frame) {
   Emitter* emitter = _emitter->as<Emitter>();
 
+  // TODO: [ARM] Dynamic stack alignment is not implemented. Refuse to emit a frame that would neither align SP nor
+  // initialize the SA register / DA slot that `FuncFrame::finalize()` has calculated for such function.
+  if (frame.has_dynamic_alignment()) {
+    return make_error(Error::kInvalidState);
+  }
+
   PrologEpilogInfo pei;
   ASMJIT_PROPAGATE(pei.init(frame));
 
@@ -404,6 +410,12 @@ ASMJIT_FAVOR_SIZE Error EmitHelper::emit_prolog(const FuncFrame& frame) {
 // TODO: [ARM] Emit epilog.
 ASMJIT_FAVOR_SIZE Error EmitHelper::emit_epilog(const FuncFrame& frame) {
   Emitter* emitter = _emitter->as<Emitter>();
+
+  // TODO: [ARM] Dynamic stack alignment is not implemented. Refuse to emit a frame that would neither align SP nor
+  // initialize the SA register / DA slot that `FuncFrame::finalize()` has calculated for such function.
+  if (frame.has_dynamic_alignment()) {
+    return make_error(Error::kInvalidState);
+  }
 
   PrologEpilogInfo pei;
   ASMJIT_PROPAGATE(pei.init(frame));
